@@ -77,7 +77,10 @@ class Check(PropertyCheck):
                 lines.append(f"obs recorder {rng.randint(0, 2)}")
             elif r < 0.15:
                 lines.append(f"cogc recorder {rng.randint(0, 2)}")
-            elif r < 0.19:
+            elif r < 0.17:
+                # a keyword argument for the constructor, no condition: whoever of that class is subscribed is returned as it is
+                lines.append(f"cogk recorder {rng.randint(0, 2)}")
+            elif r < 0.20:
                 lines.append("cog " + rng.choice(KINDS[:5]))
             elif r < 0.24:
                 lines.append(f"unsub {rng.randint(0, 7)}")
@@ -317,6 +320,12 @@ class Check(PropertyCheck):
                 res.append(("create-or-get", f"`{line}` returned {out}, but the subscribed recorder {first} matches"))
             if first is None and out != "raise" and int(out) in before_ids:
                 res.append(("create-or-get", f"`{line}` returned the non-matching observer {out}"))
+        if cmd == "cogk":
+            # keyword arguments are for the constructor: without a condition the first subscribed observer of the class is returned
+            first = next((i for i in before_ids if impl.kinds[i] == "recorder"), None)
+            if first is not None and out != str(first):
+                res.append(("create-or-get", f"`{line}` (a constructor keyword, no condition) returned {out}, but recorder {first} is "
+                            f"subscribed (tag {impl.heap[first].tag})"))
         if cmd == "cog":
             kind = line.split()[1]
             cls = impl_ext.KINDS[kind]
